@@ -15,7 +15,7 @@ package main
 //	  + the FORM the list is given in: one string | several string arguments | []string | string with `?` args |
 //	    string with @named args (sql.Named / map) | Clauses(clause.Select{Expression}) | Clauses(clause.Select{Columns})
 //	  + optional WHERE, a total ORDER BY id [desc], Limit/Offset; fresh chain per path or ONE Session handle used for all
-//	    paths; PrepareStmt on/off
+//	    paths, outside or inside one user transaction; PrepareStmt on/off
 //
 // and a list of read paths run on it: Find into []model / []custom struct carrying the alias fields / []smaller struct /
 // one struct; Scan into []model / []custom / one custom struct; Find / Scan into []map; Take / First into one map;
@@ -226,7 +226,7 @@ type c15QSpec struct {
 	WS       string     `json:"ws,omitempty"`
 	Desc     bool       `json:"desc,omitempty"`
 	Lims     []limCall  `json:"lims,omitempty"`
-	Handle   string     `json:"handle"` // fresh | session
+	Handle   string     `json:"handle"` // fresh | session | tx | txsession
 	Prep     bool       `json:"prep,omitempty"`
 	Paths    []c15QPath `json:"paths"`
 }
@@ -1024,7 +1024,7 @@ var c15QForms = []string{"none", "str1", "str1", "strs", "slice", "args", "args"
 func c15QGenSpec(rng *rand.Rand, maxN int) *c15QSpec {
 	s := &c15QSpec{Rows: c15QGenRows(rng, rng.Intn(maxN+1))}
 	s.Bind = []string{"model", "model", "table"}[rng.Intn(3)]
-	s.Handle = []string{"fresh", "session"}[rng.Intn(2)]
+	s.Handle = []string{"fresh", "session", "fresh", "session", "tx", "txsession"}[rng.Intn(6)]
 	s.Prep = rng.Intn(4) == 0
 	single := rng.Intn(4) == 0
 	for try := 0; ; try++ {
@@ -1307,8 +1307,16 @@ func c15QOpen(s *c15QSpec) (*gorm.DB, *Recorder) {
 func c15QRunSpec(r *Result, s *c15QSpec, pend *[]*c15QPend) {
 	db, rec := c15QOpen(s)
 	var base *gorm.DB
-	if s.Handle == "session" {
+	switch s.Handle {
+	case "session":
 		base = s.chain(db).Session(&gorm.Session{})
+	case "tx", "txsession":
+		// every path runs inside ONE user transaction (pinned connection; with PrepareStmt the tx-bound statements)
+		db = db.Begin()
+		defer db.Rollback()
+		if s.Handle == "txsession" {
+			base = s.chain(db).Session(&gorm.Session{})
+		}
 	}
 	ncomp := 0
 	for _, it := range s.Items {
@@ -1327,6 +1335,7 @@ func c15QRunSpec(r *Result, s *c15QSpec, pend *[]*c15QPend) {
 		r.H("select.form", s.Form)
 		r.H("select.computed", fmt.Sprint(ncomp))
 		r.H("select.bind", s.Bind)
+		r.H("select.handle", s.Handle)
 		r.H("select.err", out.Err)
 		if msg := c15QJudge(s, p, out); strings.HasPrefix(msg, "F7g:") && listed("F7g-C15-count-alias") {
 			r.KnownFinding("F7g-C15-count-alias", msg[4:])
